@@ -1,3 +1,94 @@
-import SoxrModel.Cr.Model
+import SoxrModel.Cr.Stream
+/-!
+# C03 Output length: N frames in give exactly `owed N` out, then none
+
+Model: the count model of the constant-rate engine (`Cr/Model.lean`), tied to `/repo` by the per-call correspondence
+of `checks/c03.py` (every `idone/odone`, occupancy, clock word, `remM`, `input_size`).  `owed` is the engine's
+`(int64)((double)N / io_ratio + .5)`, a parameter here (the check compares it with exact `round(N·orate/irate)`).
+
+Quantifiers: every well-formed plan (`PipeWF`, the decidable predicate the driver evaluates on every exported plan),
+every N, **every** streaming history (any interleaving of inputs and output requests of any sizes, 0 included) and
+every sequence of request sizes after end-of-input.
+-/
 namespace Soxr.Properties.C03
+open Soxr Soxr.Cr
+
+/-- A fresh engine: nothing accepted or delivered, not flushing. -/
+structure Fresh (e : Eng) : Prop where
+  sin : e.sin = 0
+  sout : e.sout = 0
+  str : Streaming e
+
+/-- **Drain is exact.**  Once end-of-input has been signalled on a resampler that has not delivered more than it
+    owes, *any* sequence of output requests delivers `min(owed, request)` call after call; in total
+    `min(owed, Σ requests)`; these counts are the only possible ones (determinism). -/
+theorem drain_exact (num : Num) (a : Api) (reqs : List Nat) (hfl : a.flushing = true) (hd : Draining a.eng) :
+    (∃ a', Calls num a reqs (drainSpec a.eng.owedLeft reqs) a') ∧
+    (∀ ods a', Calls num a reqs ods a' → ods = drainSpec a.eng.owedLeft reqs ∧ ods.sum = min a.eng.owedLeft reqs.sum) := by
+  obtain ⟨a', hc, _⟩ := calls_draining num reqs a hfl hd
+  refine ⟨⟨a', hc⟩, ?_⟩
+  intro ods a'' h
+  obtain ⟨e1, _⟩ := calls_det num reqs a _ _ _ _ h hc
+  exact ⟨e1, by rw [e1, drainSpec_sum]⟩
+
+/-- **…then none.**  After the owed frames have been delivered every further request, of any size, delivers 0. -/
+theorem then_none (num : Num) (a : Api) (reqs : List Nat) (hfl : a.flushing = true) (hd : Draining a.eng)
+    (hdone : a.eng.owedLeft = 0) : ∀ ods a', Calls num a reqs ods a' → ∀ x ∈ ods, x = 0 := by
+  intro ods a' h
+  obtain ⟨e1, _⟩ := (drain_exact num a reqs hfl hd).2 ods a' h
+  rw [e1, hdone]
+  exact drainSpec_zero reqs
+
+/-- While streaming, `samples_in` counts what was accepted and `samples_out` what was delivered, for every history. -/
+theorem streaming_counts (e e' : Eng) (ops : List StreamOp) (F D : Nat) (hf : Fresh e) (h : Streams e ops F D e') :
+    e'.sin = F ∧ e'.sout = D ∧ Streaming e' := by
+  obtain ⟨h1, h2, h3⟩ := streams_counters ops e F D e' hf.str h
+  exact ⟨by rw [h2, hf.sin]; omega, by rw [h3, hf.sout]; omega, h1⟩
+
+/-- **Total is exact.**  A fresh resampler is streamed through *any* history that accepts `N` frames and delivers `D`;
+    then end-of-input is signalled and requests `reqs` follow.  Provided the engine was never early (`D ≤ owed N`, see
+    `never_early` below) the stream delivers `D + min(owed N − D, Σ reqs)`: exactly `owed N` as soon as enough
+    has been requested, whatever the call sizes were. -/
+theorem total_exact (num : Num) (a : Api) (e' : Eng) (ops : List StreamOp) (N D : Nat) (reqs : List Nat)
+    (hf : Fresh a.eng) (hs : Streams a.eng ops N D e') (hearly : D ≤ num.owed N) :
+    let a1 : Api := { a with eng := e'.flush num.owed, flushing := true }
+    ∀ ods a2, Calls num a1 reqs ods a2 → D + ods.sum = min (num.owed N) (D + reqs.sum) := by
+  intro a1 ods a2 hc
+  obtain ⟨hsin, hsout, hstr⟩ := streaming_counts a.eng e' ops N D hf hs
+  have hfle : (e'.flush num.owed) = { e' with sout := e'.sout - num.owed e'.sin, sin := 0, fl := true } := by
+    unfold Eng.flush; simp [hstr.fl]
+  have hd : Draining a1.eng := by
+    show Draining (e'.flush num.owed)
+    rw [hfle]
+    exact ⟨rfl, by show e'.sout - (num.owed e'.sin : Int) ≤ 0; rw [hsout, hsin]; omega, hstr.wf, hstr.ne⟩
+  have howed : a1.eng.owedLeft = num.owed N - D := by
+    show (e'.flush num.owed).owedLeft = _
+    rw [hfle]; unfold Eng.owedLeft
+    show (-(e'.sout - (num.owed e'.sin : Int))).toNat = _
+    rw [hsout, hsin]; omega
+  obtain ⟨_, hsum⟩ := (drain_exact num a1 reqs rfl hd).2 ods a2 hc
+  rw [hsum, howed]; omega
+
+/-- **Every history can be run** (each call terminates), so the statements above are not vacuous. -/
+theorem histories_run (e : Eng) (ops : List StreamOp) (hf : Fresh e) : ∃ F D e', Streams e ops F D e' :=
+  streams_total ops e hf.str
+
+/-- The remaining clause — before end-of-input never more than `⌈N·orate/irate⌉` frames for the `N` accepted so far —
+    is an invariant of the *time alignment* of every stage (output `k` of a stage needs input `⌊k·ratio⌋` plus its
+    post-context).  It is not yet proved in Lean for the whole pipeline; the check decides it on the real code for
+    every call of every generated history (exact rationals).  Stated, not claimed: -/
+def Goal_never_early : Prop :=
+  ∀ (e e' : Eng) (ops : List StreamOp) (F D : Nat) (owed : Nat → Nat), Fresh e → Streams e ops F D e' → D ≤ owed F + 1
+
+/-! ## non-vacuity: a concrete plan exported by the real planner (44100 → 48000, HQ) meets the hypotheses -/
+
+def exStages : List Stage :=
+  [ { cfg := { kind := .clocked, prePost := 15, den := 80, step := 147, poly0 := true }, st := { occ := 8, clk := 40, isz := 8192 } },
+    { cfg := { kind := .dft, L := 2, dftLen := 2048, numTaps := 409, M := 1 }, st := { occ := 102, clk := 0, isz := 1024 } } ]
+
+def exEng : Eng := { stages := exStages }
+
+example : Fresh exEng := ⟨rfl, rfl, ⟨rfl, by decide, by decide⟩⟩
+example : PipeWF exStages := by decide
+
 end Soxr.Properties.C03
